@@ -1,5 +1,7 @@
 import PyodaProofs.C13
 import PyodaProofs.C13Conc
+import PyodaProofs.GenAgreeC13
+import PyodaProofs.GenAgreeC13Z
 
 #print axioms Pyoda.C13.year_key_injective
 #print axioms Pyoda.C13.yearCache_transparent
@@ -16,3 +18,16 @@ import PyodaProofs.C13Conc
 #print axioms Pyoda.C13.hebrewCache_interleaved
 #print axioms Pyoda.C13.lru_locked_linearizable
 #print axioms Pyoda.C13.formatInfo_transparent
+#print axioms Pyoda.GenAgree.C13.gen_Cache_getOrAdd_loop1_eq
+#print axioms Pyoda.GenAgree.C13.gen_Cache_new_eq
+#print axioms Pyoda.GenAgree.C13.gen_Cache_count_eq
+#print axioms Pyoda.GenAgree.C13.gen_Cache_clear_eq
+#print axioms Pyoda.GenAgree.C13.gen_Cache_getOrAdd_eq
+#print axioms Pyoda.GenAgree.C13Z.gen_Node_interval_eq
+#print axioms Pyoda.GenAgree.C13Z.gen_Node_period_eq
+#print axioms Pyoda.GenAgree.C13Z.gen_Node_createNode_loop1_eq
+#print axioms Pyoda.GenAgree.C13Z.gen_Node_createNode_eq
+#print axioms Pyoda.GenAgree.C13Z.gen_Cache_getZoneInterval_loop1_eq
+#print axioms Pyoda.GenAgree.C13Z.gen_Cache_getZoneInterval_loop2_eq
+#print axioms Pyoda.GenAgree.C13Z.gen_Cache_getZoneInterval_loop3_eq
+#print axioms Pyoda.GenAgree.C13Z.gen_Cache_getZoneInterval_eq
